@@ -1271,7 +1271,7 @@ impl Prop for C04 {
         }
     }
     fn nontrivial_rule(&self) -> &'static str {
-        "scenario = breaker configuration from lattices (builder setters in a seeded order, classifier installed first or last, both window types, size 1..6 (10-100 with thresholds exactly on k/n in one run of eight), minimum below/equal/above the size, thresholds k/8 incl. 0 and 1, permitted 1..3, slow-call detection on/off, default/custom classifier) and a sequential history of 10-80 steps over {ok, error, classifier-exempt error, flagged ok, slow, advance, force_open, force_closed, reset, call through a sibling service of the same layer}; after every step the four state views and the admission are compared with a 32-variant family of the documented machine. Non-trivial: the breaker changed state at least twice. Distinct = distinct event-log digest."
+        "scenario = breaker configuration from lattices (builder setters in a seeded order, classifier installed first or last, both window types, size 1..6 (10-100 with thresholds exactly on k/n in one run of eight), minimum below/equal/above the size, thresholds k/8 incl. 0 and 1, permitted 1..3, slow-call detection on/off, default/custom classifier) and a sequential history of 10-80 steps over {ok, error, classifier-exempt error, flagged ok, slow, advance, force_open, force_closed, reset, call through a sibling service of the same layer}, in one history of six with a call-permitted listener that blocks the thread for 3-60 ms (virtual time passes inside the poll; the blocked time is not part of the call); after every step the four state views and the admission are compared with a 32-variant family of the documented machine. Non-trivial: the breaker changed state at least twice. Distinct = distinct event-log digest."
     }
     fn real_components(&self) -> Vec<&'static str> {
         cb_real()
